@@ -29,7 +29,7 @@ Print Assumptions C01_step_invariant.
 
 (* non-vacuity, and the witnesses of two repaired defects: "GET k; PING" used to return +PONG before
    the GET's reply; "GET k; QUIT" used to lose the GET's reply.  One node owning every slot. *)
-Definition w_cfg := {| cf_limit := 1000; cf_password := []; cf_timeout := false; cf_max_active := 1 |}.
+Definition w_cfg := {| cf_limit := 1000; cf_password := []; cf_timeout := false; cf_max_active := 1; cf_replica_reads := false; cf_reps := [] |}.
 Definition w_pools := [ {| pp_addr := bs "n1:1"; pp_slave := false; pp_conns := []; pp_closed := false; pp_dialable := true |} ].
 Definition w_slots := [ (0%Z, 16383%Z, bs "n1:1") ].
 Definition w_get := enc_request [bs "get"; bs "k"].
